@@ -145,4 +145,32 @@ PROPS = {
         level_note='The four while-loops are translated as structural recursion on max_steps and compared bit-exactly with the Python for max_steps in '
                    '{0,1,3,10,20,50}. Convergence: search only, against an independent solver.',
     ),
+    'C09': dict(
+        own_files=['Lemmas/LC09.v', 'Lemmas/LC09b.v', 'Props/C09.v'],
+        corr=[dict(script='corr_pipeline.py', n=120, n_thorough=3000), dict(script='corr_pipeline_slurry.py', n=30, n_thorough=400)],
+        search='C09.py', budget_quick=60, budget_thorough=1500,
+        partial=['C09_sections_use_current_slurry inherits the ratio-recovery premise [valid] of C07'],
+        level_text='Proof: in the pipeline model the four heads equal the stated sums (friction gradient x length over positive-length sections, '
+                   'fittings K v^2/2g x density over all pipe sections, lift x density, entrance submergence, exit velocity head; pump heads summed), '
+                   'for all section lists and all gradient / pump functions; hence invariance under splitting a positive-length section and under '
+                   'any permutation of interior sections; flow and velocity are inverse; after update_slurries every diameter has the pipeline '
+                   'slurry with Dp := that diameter, which by C07 serves the gradients of a freshly built slurry, and the pipeline slurry Dp is a '
+                   'section diameter.',
+        level_note='Pipeline.v / PipelineSlurry.v are hand-written; compared bit for bit with Pipeline.calc_system_head, hydraulic_gradient, '
+                   'update_slurries and the Cv / slurry setters on random pipelines and operation sequences (synthetic pump heads on both sides; '
+                   'real slurries). The search recomputes the sum of parts with freshly built slurries and real pump points.',
+    ),
+    'C14': dict(
+        own_files=['Lemmas/LC14.v', 'Lemmas/LC09b.v', 'Props/C14.v'],
+        corr=[dict(script='corr_pipeline.py', n=120, n_thorough=3000), dict(script='corr_pipeline_slurry.py', n=30, n_thorough=400)],
+        search='C14.py', budget_quick=40, budget_thorough=1000,
+        partial=[],
+        level_text='Proof: the grade-line model has n+1 points for n sections; point 0 is (0, -depth*rhol, depth); point k is the cumulative length and '
+                   'lift of the first k sections with pressure = pump head - system head of the pipeline truncated there (the last = totals); a '
+                   'non-positive flow means the minimum-friction flow; the state left behind equals the state before whenever the pipeline slurry '
+                   'Dp is a section diameter (established by update_slurries), and the theorem C14_side_effect_without_invariant states exactly '
+                   'what changes otherwise.',
+        level_note='qimin (scipy bounded minimiser) is an oracle parameter of the model. Hand-written model compared bit for bit with the real '
+                   'hydraulic_gradient (three lists) and with the state after the call.',
+    ),
 }
